@@ -626,10 +626,10 @@ fn item_seqs(maxlen: usize) -> Vec<Vec<ItemKind>> {
     out
 }
 
-pub fn c10(tier: Tier) -> Vec<Scenario> {
+pub fn c10(tier: Tier, deep: bool) -> Vec<Scenario> {
     let mut out = vec![];
     let rcs = [0u32, 4, 10, 32];
-    let seqs = item_seqs(tier.pick(2, 3));
+    let seqs = item_seqs(if deep { 4 } else { tier.pick(2, 3) });
     for (n, seq) in seqs.iter().enumerate() {
         for (ci, chain) in [Chain::Direct, Chain::EntriesOnly].iter().enumerate() {
             let rc_list: Vec<u32> = if tier == Tier::Thorough && seq.len() <= 2 { rcs.to_vec() } else { vec![rcs[(n + ci) % 4]] };
@@ -734,13 +734,13 @@ pub fn c10(tier: Tier) -> Vec<Scenario> {
 }
 
 // ------------------------------------------------------------------------------------------ C16
-pub fn c16(tier: Tier) -> Vec<Scenario> {
+pub fn c16(tier: Tier, deep: bool) -> Vec<Scenario> {
     let mut out = vec![];
     let extras = ["none", "ctrl", "opts", "timeout"];
     let cookies = [CookieStyle::Distinct, CookieStyle::Constant, CookieStyle::EmptyFirst, CookieStyle::TailLooksEmpty, CookieStyle::WithEstimate];
     let mut k = 0usize;
-    for n in 0..=5usize {
-        for p in 1..=3i32 {
+    for n in 0..=(if deep { 7usize } else { 5 }) {
+        for p in 1..=(if deep { 4i32 } else { 3 }) {
             for (ci, ck) in cookies.iter().enumerate() {
                 for (xi, extra) in extras.iter().enumerate() {
                     for (hi, chain) in [Chain::Paged(p), Chain::EntriesPaged(p)].iter().enumerate() {
